@@ -499,6 +499,26 @@ fn run_inner(sc: &J) -> Result<Option<String>, String> {
                 Err(e) => Ok(Some(format!("cannot open: {e}"))),
             }
         }
+        // C05/C06/C16: schema-aware deserializer on arbitrary bytes: never panics (wrapper), and it agrees with the generic
+        // decoder on whether the bytes are a complete datum. `as`: "bytes" | "json" (serde_json::Value) | "unit_vec"
+        "deser_datum" => {
+            let schema = Schema::parse_str(sc["schema"].as_str().ok_or("schema")?).map_err(|e| e.to_string())?;
+            let bytes = jhex(sc, "bytes");
+            let rd = apache_avro::reader::datum::GenericDatumReader::builder(&schema).build().map_err(|e| e.to_string())?;
+            let mut r1 = &bytes[..];
+            let ok_serde = match sc["as"].as_str().unwrap_or("json") {
+                "bytes" => rd.read_deser::<serde_bytes::ByteBuf>(&mut r1).is_ok(),
+                "unit_vec" => rd.read_deser::<Vec<()>>(&mut r1).is_ok(),
+                _ => rd.read_deser::<serde_json::Value>(&mut r1).is_ok(),
+            };
+            let used_serde = bytes.len() - r1.len();
+            let mut r2 = &bytes[..];
+            let ok_generic = apache_avro::from_avro_datum(&schema, &mut r2, None).is_ok();
+            let used_generic = bytes.len() - r2.len();
+            if ok_serde != ok_generic { return Ok(Some(format!("the two decoders disagree on {:02x?}: schema-aware deserializer ok={ok_serde}, generic decoder ok={ok_generic}", &bytes[..bytes.len().min(24)]))); }
+            if ok_serde && used_serde != used_generic { return Ok(Some(format!("the two decoders consume {used_serde} vs {used_generic} bytes"))); }
+            Ok(None)
+        }
         k => Err(format!("unknown scenario kind {k:?}")),
     }
 }
